@@ -179,6 +179,15 @@ func scenarioD(H int, withNoPub bool, shapes []int, msgsPerTopic, c int, inFligh
 						if ran, ok := running[vs.Self()]; ok && ran != hi {
 							vs.Fail("routing", "the handler-level middleware of %q ran around the function of %q (wiring %s)", w.name, ws[ran].name, describe(ws))
 						}
+						// what the chain returns is what gets published: a message the middleware adds is an output of
+						// this handler like the others (same publisher, same topic, same context values)
+						if err == nil && len(out) > 0 && len(invs) > 0 && invs[len(invs)-1].h == hi && invs[len(invs)-1].uuid == m.UUID {
+							audit := message.NewMessage(m.UUID+"/audit", []byte("added by the middleware of "+w.name))
+							audit.Metadata.Set("handler", w.name)
+							audit.SetContext(context.WithValue(context.Background(), ownCtxKey{}, audit.UUID))
+							invs[len(invs)-1].outs = append(invs[len(invs)-1].outs, audit)
+							out = append(out, audit)
+						}
 						return out, err
 					}
 				})
